@@ -75,7 +75,7 @@ Theorem C01_evlog_replay : forall ref bytes_of H,
   (forall a x, length (H a x) = hsize a) ->
   forall fl l logged p a,
   wf_flow ref bytes_of l logged fl ->
-  (logged = true /\ l < 128) \/ (logged = false /\ l = 0) ->
+  logged = true \/ (logged = false /\ l = 0) ->
   (p = 0 \/ p = 1) -> is_supported a = true ->
   exists v, get (pcrs (s_tpm (fst (run_flow ref bytes_of H sim0 fl)))) p a = Ok v /\
             EL.replay H (to_parsed (evlog (s_tpm (fst (run_flow ref bytes_of H sim0 fl))))) p a = Ok v.
@@ -113,14 +113,13 @@ Theorem C01_evlog_replay_unlogged_locality_refuted :
 Proof. exact unlogged_locality_differs. Qed.
 Print Assumptions C01_evlog_replay_unlogged_locality_refuted.
 
-(** ... and (finding C01-startup-locality-utf8) a LOGGED startup at a locality
-    from 128 on: LogInit formats the locality with "%c", which writes two UTF-8
-    bytes, and ParseLocality rejects the entry the simulator itself emitted. *)
-Theorem C01_evlog_replay_locality_utf8_refuted :
+(** A logged startup at locality 200 replays (fixed in /repo: LogInit used to
+    format the locality with "%c", two UTF-8 bytes from 128 on, and ParseLocality
+    rejected the entry the simulator itself emitted). *)
+Example C01_evlog_replay_locality_200 :
   exists v, get (pcrs (toy_run fl_locality_200)) 0 ALG_SHA1 = Ok v /\
-            EL.replay toy_hash (to_parsed (evlog (toy_run fl_locality_200))) 0 ALG_SHA1 = Err EL.E_LOCALITY.
-Proof. exact locality_utf8_rejected. Qed.
-Print Assumptions C01_evlog_replay_locality_utf8_refuted.
+            EL.replay toy_hash (to_parsed (evlog (toy_run fl_locality_200))) 0 ALG_SHA1 = Ok v.
+Proof. exact locality_200_replays. Qed.
 
 (** * 3. Event log, the in-simulator routine seeded with the startup locality *)
 
